@@ -4,8 +4,37 @@
 From Coq Require Import List NArith Bool Arith Sorted.
 From Coq Require Import Strings.Byte.
 Require Import BS.Bytes BS.Common BS.Api BS.Layout BS.Format BS.FormatFacts BS.Spec BS.SpecStep.
-Require Import BS.FS BS.FSFacts BS.Meta BS.MetaFacts BS.Header BS.Reader BS.ReaderFacts BS.Index BS.Data BS.DataFacts BS.Seek BS.Series BS.SeriesFacts.
+Require Import BS.FS BS.FSFacts BS.Meta BS.MetaFacts BS.Header BS.Reader BS.ReaderFacts BS.Index BS.Data BS.DataFacts BS.Seek BS.Series BS.SeriesFacts BS.ReadAllFacts BS.TotalFacts.
 Import ListNotations.
 
-(* theorems for this property are added as the development grows; until then the property is
-   decided by the judge (Layer S/F, extracted) on the implementation and by the correspondence check *)
+
+(* (I) `returns r`: the call came back with a value or an error: the model's Panic (a Rust panic: failed
+   assertion, arithmetic overflow in debug or release, slice index out of range, unwrap of None/Err, division by
+   zero) and OutOfFuel (a loop that does not end within its bound) are excluded.
+   For a series that satisfies the representation invariant (established by create, kept by appends: C17_create,
+   C03), holding ANY well-formed list of lines, with ANY payload size, and for ALL arguments: *)
+Theorem C19_read_all : forall fs sr p hdr ihdr l, RepH fs sr p hdr ihdr l -> forall lo hi, returns (read_all sr lo hi fs).
+Proof. exact read_all_returns. Qed.
+Print Assumptions C19_read_all.
+Theorem C19_read_first_n : forall fs sr p hdr ihdr l, RepH fs sr p hdr ihdr l -> forall n lo hi, returns (read_first_n sr n lo hi fs).
+Proof. exact read_first_n_returns. Qed.
+Print Assumptions C19_read_first_n.
+Theorem C19_n_lines : forall fs sr p hdr ihdr l, RepH fs sr p hdr ihdr l -> forall lo hi, returns (n_lines_between sr lo hi fs).
+Proof. exact n_lines_returns. Qed.
+Print Assumptions C19_n_lines.
+(* includes n = 0 (after the fix: no division by zero) and huge n *)
+Theorem C19_read_n : forall fs sr p hdr ihdr l, RepH fs sr p hdr ihdr l -> forall n lo hi, returns (read_n sr n lo hi fs).
+Proof. exact read_n_returns. Qed.
+Print Assumptions C19_read_n.
+Theorem C19_last_line : forall fs sr p hdr ihdr l, RepH fs sr p hdr ihdr l -> returns (series_last_line sr fs).
+Proof. exact last_line_returns. Qed.
+Print Assumptions C19_last_line.
+(* every u64 timestamp, every payload (a wrong payload length is refused with an error) *)
+Theorem C19_push : forall fs sr p hdr ihdr l, RepH fs sr p hdr ihdr l -> forall ts pay, (ts < 2^64)%N -> returns (push_line sr ts pay fs).
+Proof. exact push_returns. Qed.
+Print Assumptions C19_push.
+Theorem C19_len : forall fs sr p hdr ihdr l, RepH fs sr p hdr ihdr l -> exists k, data_len_lines (s_data sr) = Ok k.
+Proof. exact len_returns. Qed.
+Print Assumptions C19_len.
+(* partial: series with caches (RepH demands s_down = []), builder calls other than create (open, reopen), and the
+   state after a failed call are not covered by these theorems; there the judge and the correspondence decide. *)
